@@ -52,14 +52,18 @@ func storeDecoder(typ uintptr, dec Decoder, m map[uintptr]Decoder) {
 func compileToGetDecoderSlowPath(typeptr uintptr, typ *runtime.Type) (Decoder, error) {
 	decoderMap := loadDecoderMap()
 	if dec, exists := decoderMap[typeptr]; exists {
+		verifCacheReturn("slow", typeptr, 0, dec)
 		return dec, nil
 	}
 
+	verifCacheGate("miss", typeptr)
 	dec, err := compileHead(typ, map[uintptr]Decoder{})
 	if err != nil {
 		return nil, err
 	}
+	verifCacheGate("publish", typeptr)
 	storeDecoder(typeptr, dec, decoderMap)
+	verifCacheReturn("slow", typeptr, 0, dec)
 	return dec, nil
 }
 
